@@ -333,6 +333,8 @@ impl Compiler {
         for stmt in stmt.statements {
             self.compile_statement(stmt)?;
         }
+        // The bindings made in this block end with it
+        self.symtab.retire(self.scopes[self.scope_index].scope_depth);
         self.scopes[self.scope_index].scope_depth -= 1;
         Ok(())
     }
